@@ -44,21 +44,21 @@ TReset ==
   /\ roundVoters' = {} /\ announced' = {} /\ UNCHANGED eused
   /\ terming' = "no"
 
-MsgOf(j) == IF j.t = "voteReq" THEN VoteReq(j.id, j.prio) ELSE [t |-> j.t, id |-> j.id]
+MsgOf(j) == IF j.t = "voteReq" THEN VoteReq(j.id, j.prio) ELSE [t |-> j.t, id |-> j.id, prio |-> 0]
 
 TSend == Consume /\ Ev.e = "send" /\ EnvSend(MsgOf(Ev.m)) /\ UNCHANGED terming
 TNet  == /\ Consume /\ Ev.e = "net" /\ Ev.to \in Peers_
          /\ net[Ev.to] # <<>> /\ Head(net[Ev.to]) = MsgOf(Ev.m) /\ TakeNet(Ev.to) /\ UNCHANGED terming
-ProcOf(j) == IF j.t = "stop" THEN [t |-> "stop"]
-             ELSE IF j.mode = "leader" THEN [t |-> "start", mode |-> "leader"]
-             ELSE [t |-> "start", mode |-> "follower", to |-> j.to]
+ProcOf(j) == IF j.t = "stop" THEN PStop
+             ELSE IF j.mode = "leader" THEN PStart("leader", "")
+             ELSE PStart(j.mode, j.to)
 TProc == /\ Consume /\ Ev.e = "proc"
          /\ proc # <<>> /\ Head(proc) = ProcOf(Ev.m) /\ TakeProc /\ UNCHANGED terming
 TTerm == Consume /\ Ev.e = "term" /\ terming' = "yes" /\ UNCHANGED evars
 \* graceful shutdown (tosub): the loops end, a running server is stopped
 Shutdown ==
   /\ terming = "yes" /\ terming' = "down" /\ UNCHANGED l
-  /\ proc' = IF phase \in {"leader", "follower"} THEN Append(proc, [t |-> "stop"]) ELSE proc
+  /\ proc' = IF phase \in {"leader", "follower"} THEN Append(proc, PStop) ELSE proc
   /\ phase' = "down"
   /\ UNCHANGED <<inbox, votes, mayVote, hbFrom, leader, net, roundVoters, announced, eused>>
 TEnd  == /\ Consume /\ Ev.e = "end"
